@@ -32,11 +32,8 @@ def txn(w, name, wr, r, keys):
     if end < 0.8:
         wr.cancel()
         return "cancel"
-    try:
-        with wr:
-            raise RuntimeError("boom inside with-block")
-    except RuntimeError:
-        return "exception"
+    ixcommon.failing_block(wr, r)
+    return "exception"
 
 
 def racing_threads(run, rng, n):
@@ -195,11 +192,7 @@ def fork_while_locked(run, rng, n):
                     w.log.events = [e for e in w.log.events
                                     if not (e["ev"] == "api" and e.get("key") == "fcancel")] if False else w.log.events
                 else:
-                    try:
-                        with wr:
-                            raise RuntimeError("boom")
-                    except RuntimeError:
-                        pass
+                    ixcommon.failing_block(wr, rng)
                 w.nw += 1
                 nxt = "w%d" % w.nw
                 w.writers.append(nxt)
